@@ -558,7 +558,28 @@ pub fn run_c17(cfg: &ShardCfg, out: &mut ShardOut) {
         let n = t.chars().count();
         let boundary = matches!(n, 1 | 2 | 7 | 8 | 9) || t.starts_with('α');
         sw.eval(boundary && demand(t).is_some(), &format!("text|{t}"));
-        match check_label_text(t) {
+        let first = check_label_text(t);
+        // parsing is a function of the text: the same text submitted again (right after it was
+        // accepted or rejected) gets the same answer
+        if first.is_ok() {
+            match check_label_text(t) {
+                Err(m) => sw.violation(
+                    "C17:second-submission",
+                    format!("{m} (on the second submission of the same text; the first one was answered correctly)"),
+                    format!("labeltext {}", hex(t.as_bytes())),
+                ),
+                Ok(second) => {
+                    if second.as_ref().map(label_text) != first.as_ref().ok().and_then(|x| x.as_ref().map(label_text)) {
+                        sw.violation(
+                            "C17:second-submission",
+                            format!("from_str({t:?}) gives {:?} the first time and {:?} the second time", first.as_ref().ok().and_then(|x| x.as_ref().map(label_text)), second.as_ref().map(label_text)),
+                            format!("labeltext {}", hex(t.as_bytes())),
+                        );
+                    }
+                }
+            }
+        }
+        match first {
             Ok(Some(l)) => {
                 let key = label_text(&l);
                 if let Some(prev) = seen.get(&key) {
@@ -670,7 +691,9 @@ pub fn replay(rp: &crate::shard::Replay) -> bool {
             }
             Some("labeltext") => {
                 let t = String::from_utf8(crate::ops::unhex(it.next().unwrap_or("")).unwrap_or_default()).unwrap_or_default();
-                check_label_text(&t).map(|_| ())
+                // as in the sweep: after some accepted text, the text itself, twice
+                let _ = check_label_text("foo");
+                check_label_text(&t).and_then(|_| check_label_text(&t).map_err(|m| format!("{m} (on the second submission)"))).map(|_| ())
             }
             Some("labelvalue") => {
                 let l = crate::ops::parse_label(it.next().unwrap_or("")).expect("label");
